@@ -42,14 +42,21 @@ Dev_NegativeYearWidth(c, u, text) ==
 \* writes past the buffer (garbage text, or the run dies).  Also days + 719468 overflows int64 at the very top.
 Dev_IsoPrintBufferOverflow(c, u) == Len(IsoPrintCodes(c, u)) >= 33
 
-\* Dev_AccumulationOrder / Dev_DaysFromCivilEdge (see Trace_ChronoParse): after the fixes b4c84ea / 0dda6ff only unsigned
-\* representations are affected; unsigned time points cannot be printed at all, so within C14 these guards never hold and
-\* every rejected reparse of a signed time point is a plain violation.
+\* Dev_AccumulationOrder / Dev_DaysFromCivilEdge (see Trace_ChronoParse): residues after the fixes b4c84ea / 0dda6ff.
+\* The first is guarded by the parser's own partial sums (time of day, + fraction) not fitting the representation, the
+\* second by an unsigned day count above 2^63: with the 64/32-bit signed representations that C14 prints neither guard
+\* holds, so every rejected reparse there is a plain violation.
 TicksPerDay(u) ==
   CASE u = "ns" -> <<86400, 1000, 1000, 1000>> [] u = "us" -> <<86400, 1000, 1000>> [] u = "ms" -> <<86400, 1000>>
     [] u = "s" -> <<86400>> [] u = "min" -> <<1440>> [] u = "h" -> <<24>> [] OTHER -> <<>>
+\* (the library's own text carries a fraction exactly for the sub-second units)
 Dev_AccumulationOrder(c, u, r, back) ==
-  back = "O" /\ ~RepSigned(r) /\ Lt(DivModSmall(SplitSeconds(c, u).q, 86400).q, Zero)
+  LET dm == DivModSmall(SplitSeconds(c, u).q, 86400)
+      bk == Lt(dm.q, Zero) /\ (dm.r # 0 \/ SubSecond(u))
+      timeSecs == IF bk THEN dm.r - 86400 ELSE dm.r
+      s1 == IF SubSecond(u) THEN ShiftDec(FromInt(timeSecs), FracDigits(u)) ELSE DivModSmall(FromInt(timeSecs), UnitSeconds(u)).q
+      s2 == Sub(c, MulChain(IF bk THEN AddSmall(dm.q, 1) ELSE dm.q, TicksPerDay(u)))
+  IN back = "O" /\ (~Fits(s1, r) \/ ~Fits(s2, r))
 Dev_DaysFromCivilEdge(c, u, r, back) ==
   back = "O" /\ ~RepSigned(r) /\ Gt(DivModSmall(SplitSeconds(c, u).q, 86400).q, I64Max)
 
